@@ -489,7 +489,63 @@ func rulesGoString(c *Ctx, r *Report, f *ssa.Function) {
 	}
 	if fnIs(sortCall.Call.StaticCallee(), "sort", "Slice") {
 		okLess := false
-		if mc, ok := sortCall.Call.Args[1].(*ssa.MakeClosure); ok {
+		// the less function as a method value of the key list under a named type: named(sorted).less
+		if mc, ok := sortCall.Call.Args[1].(*ssa.MakeClosure); ok && len(mc.Bindings) == 1 {
+			if w, ok := mc.Fn.(*ssa.Function); ok && strings.Contains(w.Synthetic, "bound method wrapper") {
+				var m *ssa.Function
+				instrs(w, func(in ssa.Instruction) {
+					if cl, ok := in.(ssa.CallInstruction); ok && cl.Common().StaticCallee() != nil {
+						m = cl.Common().StaticCallee()
+					}
+				})
+				recv := mc.Bindings[0]
+				if ct, ok := recv.(*ssa.ChangeType); ok {
+					recv = ct.X
+				}
+				var sorted ssa.Value
+				if mi, ok := sortCall.Call.Args[0].(*ssa.MakeInterface); ok {
+					sorted = mi.X
+				}
+				sameCell := recv == sorted && sorted != nil
+				if l1, ok := recv.(*ssa.UnOp); ok && !sameCell {
+					if l2, ok := sorted.(*ssa.UnOp); ok && l1.Op == token.MUL && l2.Op == token.MUL && l1.X == l2.X && l1.Block() == l2.Block() {
+						sameCell = true // two loads of the variable with nothing but the conversion between them
+						for _, in := range l1.Block().Instrs {
+							if st, ok := in.(*ssa.Store); ok && st.Addr == l1.X {
+								sameCell = false
+							}
+						}
+					}
+				}
+				if m != nil && m.Blocks != nil && c.inModule(m) && len(m.Params) == 3 && sameCell {
+					r.analysed(fname(m))
+					el := func(v ssa.Value, param int) bool {
+						ld, ok := v.(*ssa.UnOp)
+						if !ok {
+							return false
+						}
+						ia, ok := ld.X.(*ssa.IndexAddr)
+						return ok && ia.X == ssa.Value(m.Params[0]) && ia.Index == ssa.Value(m.Params[1+param])
+					}
+					instrs(m, func(in ssa.Instruction) {
+						rt, ok := in.(*ssa.Return)
+						if !ok || len(rt.Results) != 1 || len(m.Blocks) != 1 {
+							return
+						}
+						bo, ok := rt.Results[0].(*ssa.BinOp)
+						if !ok || bo.Op != token.LSS {
+							return
+						}
+						k, okk := cInt(constVal(bo.Y))
+						cl, okc := bo.X.(*ssa.Call)
+						if okk && k == 0 && okc && fnIs(cl.Call.StaticCallee(), "bytes", "Compare") && el(cl.Call.Args[0], 0) && el(cl.Call.Args[1], 1) {
+							okLess = true
+						}
+					})
+				}
+			}
+		}
+		if mc, ok := sortCall.Call.Args[1].(*ssa.MakeClosure); ok && !okLess {
 			g := mc.Fn.(*ssa.Function)
 			// the sorted slice variable: what sort.Slice receives
 			var sortedCell ssa.Value
